@@ -1,6 +1,7 @@
 package engines
 
 import (
+	"encoding/hex"
 	"encoding/json"
 	"fmt"
 	"sort"
@@ -67,6 +68,7 @@ func TestEngineCpc(t *testing.T) {
 	for i := 0; i < maxNonce; i++ {
 		dyn[crypto.CreateAddress(cpctypes.CpcModuleAddress, uint64(i))] = 2000 + i
 	}
+	var deployedAt, deployedIs string
 	idOfAddr := func(a common.Address) int {
 		if a == cpctypes.CpcStakingFixedAddress {
 			return 1001
@@ -315,6 +317,10 @@ func TestEngineCpc(t *testing.T) {
 					write()
 					a := ck.GetErc20CustomPrecompiledContractAddressByMinDenom(ctx, denoms[di])
 					out = fmt.Sprintf("ok:%d", idOfAddr(*a))
+					if id := idOfAddr(*a); id >= 2000 && id < 9999 {
+						deployedAt = fmt.Sprintf("caddr %s %d", hex.EncodeToString(cpctypes.CpcModuleAddress.Bytes()), id-2000)
+						deployedIs = hex.EncodeToString(a.Bytes())
+					}
 				}
 			case k < 55: // deploy staking
 				si := r.Intn(len(senders))
@@ -402,6 +408,11 @@ func TestEngineCpc(t *testing.T) {
 				}
 			}
 			p.Emit(op+tail, out+" "+dump(cand))
+			if deployedAt != "" { // the new contract's address against the Lean model of CreateAddress(module account, nonce)
+				p.Emit(deployedAt, deployedIs)
+				p.Count("caddr-line")
+				deployedAt = ""
+			}
 			p.Count(strings.Fields(op)[0] + ":" + strings.SplitN(out, ":", 2)[0])
 			done++
 		}
